@@ -338,6 +338,11 @@ impl<'b, T: El + PartialEq, S: SEl> Env<'b, T, S> {
                 self.bv[v].as_mut().unwrap().dedup();
                 "ok"
             }
+            "dedup_by_lt" => {
+                // an asymmetric relation of the two elements: `a` is the candidate, `b` the last element kept
+                self.bv[v].as_mut().unwrap().dedup_by(|a, b| a.val() < b.val());
+                "ok"
+            }
             "dedup_by" => {
                 let mut calls = 0u32;
                 let ans = &op.ans;
@@ -604,6 +609,10 @@ impl<'b, T: El + PartialEq, S: SEl> Env<'b, T, S> {
             }
             "dedup" => {
                 self.sv[v].as_mut().unwrap().dedup();
+                "ok"
+            }
+            "dedup_by_lt" => {
+                self.sv[v].as_mut().unwrap().dedup_by(|a, b| a.val() < b.val());
                 "ok"
             }
             "dedup_by" => {
@@ -944,7 +953,7 @@ pub fn run_plan<T: El + PartialEq, S: SEl>(plan: &mut Plan, gen: Option<(Profile
             // back (std's `Vec` never does), neither of the receiver nor of the other vector of `append`
             if matches!(name, "push" | "pop" | "insert" | "remove" | "swap_remove" | "truncate" | "clear" | "extend" | "extend_from_slice" | "extend_copy" | "extend_refs"
                 | "extend_slices" | "append" | "resize" | "reserve" | "reserve_exact" | "try_reserve" | "try_reserve_exact" | "retain" | "dedup"
-                | "dedup_by" | "dedup_by_key")
+                | "dedup_by" | "dedup_by_lt" | "dedup_by_key")
             {
                 for j in [op.v, op.w] {
                     if j != op.v && name != "append" {
